@@ -5,7 +5,7 @@ import sys
 
 from vk import run as _run
 
-ORACLES = ["gf2", "gf2m"]
+ORACLES = ["gf2", "gf2m", "refmod", "stats"]
 
 
 def main():
